@@ -143,7 +143,8 @@ Qed.
 
 (* ------------------------------------------------------------------ shape D (order-SENSITIVE): sequential text replacement
 
-   lib/textmeasure.replaceVariables, pinned:  for k, v := range vars { s = strings.ReplaceAll(s, "${"+k+"}", v) }
+   HISTORICAL — lib/textmeasure.replaceVariables before commit 6792a051a:
+       for k, v := range vars { s = strings.ReplaceAll(s, "${"+k+"}", v) }
    The text produced by one replacement is scanned by the following ones.  Model on token lists: a text
    is a list of tokens, a token is literal text or a reference ${k}. *)
 Inductive tok := Lit (s : string) | Ref (k : string).
@@ -169,7 +170,7 @@ Proof.
   - vm_compute. discriminate.
 Qed.
 
-(* shape D repaired (coq/C08/fix.patch): every reference of the ORIGINAL text is replaced once, in one
+(* the code as it is (since 6792a051a): every reference of the ORIGINAL text is replaced once, in one
    pass; nothing is rescanned, and the map is only looked up, never iterated *)
 Definition replace_once (vars : string -> option (list tok)) (s : list tok) : list tok :=
   flat_map (fun t => match t with
@@ -224,11 +225,14 @@ Definition analysed_sites : list (site * shape) := [
   (("map", "d2ir/compile.go", "globContext.copyApplied", 1%nat, "from.appliedEdges", "6ee7d37932ff"), ShapeA);
   (("map", "d2ir/d2ir.go", "Map.DeleteField", 0%nat, "d2ast.ReservedKeywordHolders", "7f30949e351c"), ShapeB);
   (("map", "lib/textmeasure/atlas.go", "NewAtlas", 0%nat, "fixedMapping", "b16cf35aa8b1"), ShapeA);
-  (* pinned text of replaceVariables: order-sensitive (known finding C08-block-string-variable-replace-order) *)
+  (* HISTORICAL: text of replaceVariables before commit 6792a051a: order-sensitive
+     (repaired finding C08-block-string-variable-replace-order, coq/C08/fixed.json); if this text comes back the
+     Inventory case of Check.v reports code 11 *)
   (("map", "lib/textmeasure/substitutions.go", "replaceVariables", 0%nat, "vars", "268d769c6caf"), ShapeD_sensitive);
-  (* the same two loops after coq/C07/fix.patch (nil-Name guard inside the DeleteField loop: still shape B)
-     and coq/C08/fix.patch (replaceVariables: `for k := range vars { keys = append(keys, k) }` followed by a
-     sort with a total order on different strings: shape E) *)
+  (* the two loops as they are in /repo: since 9d408296b the DeleteField loop has a nil-Name guard inside
+     (still shape B; the entry with hash 7f30949e351c above is its earlier text); since 6792a051a
+     replaceVariables does `for k := range vars { keys = append(keys, k) }` followed by a sort with a total
+     order on different strings (shape E) and replaces in one pass without rescanning *)
   (("map", "d2ir/d2ir.go", "Map.DeleteField", 0%nat, "d2ast.ReservedKeywordHolders", "0bdeb9f09f41"), ShapeB);
   (("map", "lib/textmeasure/substitutions.go", "replaceVariables", 0%nat, "vars", "406155c19587"), ShapeE_sorted);
   (* uniseg.Graphemes.Runes() returns []rune; the operand type is not resolved because third-party modules
